@@ -29,6 +29,27 @@ func funcsUnmarshallingInto(p *Prog, typeName string) []*ssa.Function {
 			}
 		}
 	}
+	// a helper that hands its own parameter on to such a helper is one too
+	for round := 0; round < 3; round++ {
+		for _, fn := range p.modFns {
+			if helpers[fn] {
+				continue
+			}
+			for _, b := range fn.Blocks {
+				for _, in := range b.Instrs {
+					ci, ok := in.(ssa.CallInstruction)
+					if !ok || ci.Common().StaticCallee() == nil || !helpers[ci.Common().StaticCallee()] {
+						continue
+					}
+					for _, a := range ci.Common().Args {
+						if q, ok := a.(*ssa.Parameter); ok && types.IsInterface(q.Type()) {
+							helpers[fn] = true
+						}
+					}
+				}
+			}
+		}
+	}
 	var out []*ssa.Function
 	for _, fn := range p.modFns {
 		if !p.InLibrary(fn) {
